@@ -908,6 +908,10 @@ where
 {
     let file = log::open(utils::hintfile_name(&path, fileid))?;
     let datafile_len = fs::metadata(utils::datafile_name(&path, fileid))?.len();
+    // A hint file can lack entries of its data file (a crash between the copy of an entry and
+    // its hint). The file must still be known to the merge, which has to take every file older
+    // than a merged one, otherwise the unhinted copy outlives the tombstone that shadows it.
+    stats.entry(fileid).or_default();
     let mut hintfile_iter = LogIterator::new(file)?;
     while let Some((_, entry)) = hintfile_iter.next::<HintFileEntry>()? {
         // After a power loss a hint can be ahead of the data it describes, the hints are
